@@ -17,6 +17,7 @@ def register(reg):
     register_formats(reg)
     register_stubs(reg)
     register_hash(reg)
+    register_env(reg)
 
     @reg.specfun("as_bytes")
     def as_bytes(ex, st, args, cx):
@@ -307,3 +308,16 @@ def register_hash(reg):
         H, dsz = hash_funs(ex.w)
         st.assume(dsz(args[0].e) > 0)
         return ex.o.int_(dsz(args[0].e))
+
+
+def register_env(reg):
+    @reg.specfun("upper")
+    def upper(ex, st, args, cx):
+        f = ex.w.fun("str_upper", "str", "str")
+        return ex.o.str_(f(ex.o.s(args[0])))
+
+    @reg.specfun("env_get")
+    def env_get(ex, st, args, cx):
+        v = z3.Select(st.g("env"), ex.o.s(args[0]))
+        st.assume(z3.Or(ex.w.V.is_none(v), ex.w.V.is_str(v)))
+        return SV(v)
